@@ -214,7 +214,7 @@ func Run(seed uint64, tier, work, driver string, replay []string, cfg Config) *c
 		hw := fmt.Sprintf("%s/h%d", work, i)
 		_ = os.MkdirAll(hw, 0755)
 		mon := appmon.New()
-		opt.PlanScenario = i%apphist.NumScenarios + 1
+		opt.PlanScenario = (i+int(seed%uint64(apphist.NumScenarios)))%apphist.NumScenarios + 1
 		s, err := RunHistory(seed*1000+uint64(i), hr, hw, opt, cfg, mon)
 		if err != nil {
 			res.Error = err.Error()
